@@ -16,8 +16,9 @@ def background():
     return ax
 
 
-def check_one(obl, ax, timeout=TIMEOUT_MS, mbqi=False):
-    s = Solver(); s.set('timeout', timeout); s.set(auto_config=False, mbqi=mbqi); s.set('smt.random_seed', 0)
+def check_one(obl, ax, timeout=TIMEOUT_MS, mbqi=False, seed=0, eager=None):
+    s = Solver(); s.set('timeout', timeout); s.set(auto_config=False, mbqi=mbqi); s.set('smt.random_seed', seed)
+    if eager is not None: s.set('smt.qi.eager_threshold', eager)
     s.add(*ax); s.add(*obl.pc); s.add(Not(obl.goal))
     t0 = time.time(); r = s.check(); dt = time.time() - t0
     reason = s.reason_unknown() if r == unknown else ''
@@ -50,6 +51,11 @@ def conjuncts(g):
 def prove(o, ax, timeout, use_cvc5):
     """prove one goal (a single conjunct) -> (status, backend, time, detail)"""
     r, reason, dt, s = check_one(o, ax, timeout); backend = 'z3'
+    if r != unsat and 'timeout' not in reason:
+        # E-matching is heuristic: diversify before giving up (other seeds, a more eager instantiation threshold)
+        for seed, eager in ((1, None), (2, 50.0), (3, 200.0)):
+            r1, reason1, dt1, s1 = check_one(o, ax, min(timeout, 8000), seed=seed, eager=eager); dt += dt1
+            if r1 == unsat: r, backend = r1, 'z3(retry)'; break
     if r != unsat:
         r2, reason2, dt2, s2 = check_one(o, ax, min(timeout, 4000), mbqi=True); dt += dt2
         if r2 == unsat: r, backend = r2, 'z3-mbqi'
